@@ -37,6 +37,13 @@ var importMap = map[string]string{
 	"github.com/cenkalti/backoff/v4": shim + "vbackoff",
 }
 
+// quietImportMap is used for packages listed as "<pattern>:sync": not explored (no scheduling points, no
+// access tracking), only their synchronisation primitives report happens-before edges.
+var quietImportMap = map[string]string{
+	"sync":        shim + "vsyncq",
+	"sync/atomic": shim + "vatomicq",
+}
+
 var importName = map[string]string{
 	"sync":                           "sync",
 	"sync/atomic":                    "atomic",
@@ -52,6 +59,10 @@ type rw struct {
 	pkg     *packages.Package
 	file    *ast.File
 	skip    map[ast.Node]bool
+	acc     map[ast.Node]byte // field selectors / map index expressions to wrap: 'r' read, 'w' write
+	sites   map[ast.Node]ast.Expr
+	rangeT  map[*ast.RangeStmt]types.Type // type of the range expression, taken before its children are rewritten
+	repo    string
 	tmp     int
 	usesSch bool
 	changed bool
@@ -117,7 +128,144 @@ func define(lhs ast.Expr, rhs ast.Expr) ast.Stmt {
 	return &ast.AssignStmt{Lhs: []ast.Expr{lhs}, Tok: token.DEFINE, Rhs: []ast.Expr{rhs}}
 }
 
+// plainField reports whether a field of type t is tracked by the race detector: scalars, pointers, slices,
+// maps, channels, interfaces, funcs and strings. Struct and array typed fields are reached through their
+// own members (and are where mutexes and atomics live).
+func plainField(t types.Type) bool {
+	switch t.Underlying().(type) {
+	case *types.Struct, *types.Array, *types.Tuple:
+		return false
+	}
+	if _, ok := t.(*types.TypeParam); ok {
+		return false
+	}
+	return true
+}
+
+// classify decides, while the tree is still intact, which accesses the post pass wraps.
+func (r *rw) classify(c *astutil.Cursor) {
+	if !raceOn {
+		return
+	}
+	parent := c.Parent()
+	isWrite := func(n ast.Expr) (bool, bool) { // (write, skip)
+		switch p := parent.(type) {
+		case *ast.AssignStmt:
+			for _, l := range p.Lhs {
+				if l == n {
+					return true, p.Tok == token.DEFINE
+				}
+			}
+		case *ast.IncDecStmt:
+			if p.X == n {
+				return true, false
+			}
+		case *ast.RangeStmt:
+			if p.Key == n || p.Value == n {
+				return true, true
+			}
+		case *ast.UnaryExpr:
+			if p.Op == token.AND {
+				return false, true // address taken: what happens through the pointer is not tracked
+			}
+		}
+		return false, false
+	}
+	switch n := c.Node().(type) {
+	case *ast.SelectorExpr:
+		sel := r.pkg.TypesInfo.Selections[n]
+		if sel == nil || sel.Kind() != types.FieldVal {
+			return
+		}
+		tv, ok := r.pkg.TypesInfo.Types[n]
+		if !ok || !tv.Addressable() || !plainField(tv.Type) {
+			return
+		}
+		if ce, ok := parent.(*ast.CallExpr); ok {
+			// unsafe.Offsetof(x.f) and friends need the bare selector
+			if se, ok := ce.Fun.(*ast.SelectorExpr); ok {
+				if id, ok := se.X.(*ast.Ident); ok && id.Name == "unsafe" {
+					return
+				}
+			}
+		}
+		w, skip := isWrite(n)
+		if skip {
+			return
+		}
+		if w {
+			r.acc[n] = 'w'
+		} else {
+			r.acc[n] = 'r'
+		}
+	case *ast.IndexExpr:
+		if !r.isMap(n.X) {
+			return
+		}
+		// only maps reachable by other threads: struct fields and package-level variables
+		shared := false
+		switch x := ast.Unparen(n.X).(type) {
+		case *ast.SelectorExpr:
+			if sel := r.pkg.TypesInfo.Selections[x]; sel != nil && sel.Kind() == types.FieldVal {
+				shared = true
+			}
+		case *ast.Ident:
+			if v, ok := r.pkg.TypesInfo.Uses[x].(*types.Var); ok && v.Parent() == r.pkg.Types.Scope() {
+				shared = true
+			}
+		}
+		if !shared {
+			return
+		}
+		w, skip := isWrite(n)
+		if skip {
+			return
+		}
+		if w {
+			r.acc[n] = 'w'
+		} else {
+			r.acc[n] = 'r'
+		}
+	case *ast.CallExpr:
+		// delete(m, k), clear(m): writes; len(m): read
+		id, ok := n.Fun.(*ast.Ident)
+		if !ok || len(n.Args) == 0 || !r.isMap(n.Args[0]) {
+			return
+		}
+		if _, isBuiltin := r.pkg.TypesInfo.Uses[id].(*types.Builtin); !isBuiltin {
+			return
+		}
+		if x, ok := ast.Unparen(n.Args[0]).(*ast.SelectorExpr); ok {
+			if sel := r.pkg.TypesInfo.Selections[x]; sel != nil && sel.Kind() == types.FieldVal {
+				switch id.Name {
+				case "delete", "clear":
+					r.acc[n] = 'w'
+				case "len":
+					r.acc[n] = 'r'
+				}
+			}
+		}
+	}
+}
+
+func (r *rw) site(n ast.Node) ast.Expr {
+	pos := r.pkg.Fset.Position(n.Pos())
+	rel, err := filepath.Rel(r.repo, pos.Filename)
+	if err != nil {
+		rel = pos.Filename
+	}
+	return &ast.BasicLit{Kind: token.STRING, Value: strconv.Quote(fmt.Sprintf("%s:%d", rel, pos.Line))}
+}
+
 func (r *rw) pre(c *astutil.Cursor) bool {
+	r.classify(c)
+	if _, ok := r.acc[c.Node()]; ok {
+		r.sites[c.Node()] = r.site(c.Node())
+	}
+	if rs, ok := c.Node().(*ast.RangeStmt); ok {
+		r.sites[rs] = r.site(rs)
+		r.rangeT[rs] = r.typeOf(rs.X)
+	}
 	switch n := c.Node().(type) {
 	case *ast.SelectStmt:
 		if _, ok := c.Parent().(*ast.LabeledStmt); ok {
@@ -147,6 +295,32 @@ func isBlank(e ast.Expr) bool {
 }
 
 func (r *rw) post(c *astutil.Cursor) bool {
+	if k, ok := r.acc[c.Node()]; ok {
+		r.usesSch = true
+		switch n := c.Node().(type) {
+		case *ast.SelectorExpr:
+			fn := "Rd"
+			if k == 'w' {
+				fn = "Wr"
+			}
+			c.Replace(&ast.ParenExpr{X: &ast.StarExpr{X: call(sched(fn), &ast.UnaryExpr{Op: token.AND, X: n}, r.sites[n])}})
+			return true
+		case *ast.IndexExpr:
+			fn := "MR"
+			if k == 'w' {
+				fn = "MW"
+			}
+			n.X = call(sched(fn), n.X, r.sites[n])
+			return true
+		case *ast.CallExpr:
+			fn := "MR"
+			if k == 'w' {
+				fn = "MW"
+			}
+			n.Args[0] = call(sched(fn), n.Args[0], r.sites[n])
+			return true
+		}
+	}
 	switch n := c.Node().(type) {
 	case *ast.GoStmt:
 		r.usesSch = true
@@ -229,8 +403,14 @@ func (r *rw) post(c *astutil.Cursor) bool {
 			}
 		}
 	case *ast.RangeStmt:
+		xt := r.rangeT[n]
+		if xt == nil {
+			return true
+		}
+		_, xIsChan := xt.Underlying().(*types.Chan)
+		_, xIsMap := xt.Underlying().(*types.Map)
 		switch {
-		case r.isChan(n.X):
+		case xIsChan:
 			r.usesSch = true
 			tc := r.newTmp("c")
 			tok := r.newTmp("ok")
@@ -255,8 +435,8 @@ func (r *rw) post(c *astutil.Cursor) bool {
 			}, n.Body.List...)
 			loop := &ast.ForStmt{Body: &ast.BlockStmt{List: body}}
 			r.replaceLoop(c, n, []ast.Stmt{define(tc, n.X)}, loop)
-		case r.isMap(n.X):
-			m := r.typeOf(n.X).Underlying().(*types.Map)
+		case xIsMap:
+			m := xt.Underlying().(*types.Map)
 			if b, ok := m.Key().Underlying().(*types.Basic); !ok || b.Info()&(types.IsOrdered) == 0 {
 				// keys that cannot be sorted: leave as is (order then is Go's random order);
 				// report so the author can see it.
@@ -384,6 +564,27 @@ func directiveComments(f *ast.File) []*ast.CommentGroup {
 	return keep
 }
 
+// isFieldWrap reports whether e is an already wrapped field read (*vsched.Rd(&x.f, site)).
+func isFieldWrap(e ast.Expr) bool {
+	p, ok := e.(*ast.ParenExpr)
+	if !ok {
+		return false
+	}
+	st, ok := p.X.(*ast.StarExpr)
+	if !ok {
+		return false
+	}
+	ce, ok := st.X.(*ast.CallExpr)
+	if !ok {
+		return false
+	}
+	se, ok := ce.Fun.(*ast.SelectorExpr)
+	return ok && se.Sel.Name == "Rd"
+}
+
+// raceOn: wrap field and map accesses for the happens-before race detector (VERIF_RW_RACE=0 turns it off).
+var raceOn = os.Getenv("VERIF_RW_RACE") != "0"
+
 func main() {
 	outDir := os.Args[1]
 	repo := os.Getenv("VERIF_REPO")
@@ -418,9 +619,41 @@ func main() {
 			cfg.Overlay[k] = data
 		}
 	}
-	pkgs, err := packages.Load(cfg, os.Args[2:]...)
+	var patterns []string
+	quietPat := map[string]bool{}
+	for _, a := range os.Args[2:] {
+		if strings.HasSuffix(a, ":sync") {
+			a = strings.TrimSuffix(a, ":sync")
+			quietPat[a] = true
+		}
+		patterns = append(patterns, a)
+	}
+	pkgs, err := packages.Load(cfg, patterns...)
 	if err != nil {
 		fatal("load: %v", err)
+	}
+	// a package is quiet when only ":sync" patterns name it
+	quiet := map[string]bool{}
+	for pat := range quietPat {
+		qp, err := packages.Load(&packages.Config{Mode: packages.NeedName, Dir: repo, BuildFlags: cfg.BuildFlags, Overlay: cfg.Overlay}, pat)
+		if err != nil {
+			fatal("load %s: %v", pat, err)
+		}
+		for _, p := range qp {
+			quiet[p.PkgPath] = true
+		}
+	}
+	for _, a := range patterns {
+		if quietPat[a] {
+			continue
+		}
+		fp, err := packages.Load(&packages.Config{Mode: packages.NeedName, Dir: repo, BuildFlags: cfg.BuildFlags, Overlay: cfg.Overlay}, a)
+		if err != nil {
+			fatal("load %s: %v", a, err)
+		}
+		for _, p := range fp {
+			delete(quiet, p.PkgPath)
+		}
 	}
 	overlay := map[string]string{}
 	nfiles := 0
@@ -433,15 +666,20 @@ func main() {
 			if !strings.HasSuffix(name, ".go") || strings.HasSuffix(name, "_test.go") {
 				continue
 			}
-			r := &rw{pkg: p, file: f, skip: map[ast.Node]bool{}}
-			astutil.Apply(f, r.pre, r.post)
+			r := &rw{pkg: p, file: f, skip: map[ast.Node]bool{}, acc: map[ast.Node]byte{}, sites: map[ast.Node]ast.Expr{}, rangeT: map[*ast.RangeStmt]types.Type{}, repo: repo}
+			imap := importMap
+			if quiet[p.PkgPath] {
+				imap = quietImportMap
+			} else {
+				astutil.Apply(f, r.pre, r.post)
+			}
 			if len(r.errs) > 0 {
 				fatal("%s", strings.Join(r.errs, "\n"))
 			}
 			changed := r.usesSch
 			for _, imp := range f.Imports {
 				path, _ := strconv.Unquote(imp.Path.Value)
-				if np, ok := importMap[path]; ok {
+				if np, ok := imap[path]; ok {
 					if imp.Name == nil {
 						imp.Name = ast.NewIdent(importName[path])
 					}
